@@ -31,7 +31,7 @@ m = {
                  "serves_properties": sorted(CHECKS),
                  "kind_free_text": "Coq 8.16.1 theorems about an executable Gallina model (coq/), tied to /repo on every run (a) by regenerating the numeric "
                                    "kernels' definitions from the current source text with a fail-closed translator and re-proving them equal to the model "
-                                   "(C01 C02 C03 C04 C05 C06 C08 C09 C10 C11 C12 C13 C14 C15 C16 C17 C18 C19 C20) and (b) by executing the model inside Coq (vm_compute at Q) on the scenarios the real "
+                                   "(all twenty properties; C07 through Node.run) and (b) by executing the model inside Coq (vm_compute at Q) on the scenarios the real "
                                    "library just ran, plus a property oracle on the real code that produces the replay"}],
     "checks": checks,
     "notes": "See DESIGN.md. Every check: (0) re-translation of the property's kernels from the current source (coq/gen/, where a translator exists), (1) full .vo rebuild of the cone of coq/props/<id>.v with Print Assumptions, (2) model-vs-implementation "
